@@ -188,7 +188,21 @@ def gen_force_opts(rng, labels, span):
         o["maxPos"] = base + need / o.get("density", 0.85) if False else base + need * 1.25
     elif mx is None:
         o["maxPos"] = None
-    if rng.random() < 0.6:
+    if rng.random() < 0.1 and len(labels) >= 2:
+        # a layer that is EXACTLY full: density 1 and a layer width equal to the required width, computed the way the code computes it on the labels
+        # in axis order — whether the labels fit must not depend on the order in which the caller lists them (not even in the last binary digit)
+        ns = o.get("nodeSpacing", 3)
+        tot = 0
+        for _p, w in sorted(labels, key=lambda l: l[0]):
+            tot += w + ns
+        tot -= ns
+        o["density"] = 1
+        o["minPos"] = 0
+        import math
+        # … or one unit in the last place short of it: then the labels do NOT fit, whatever order they are listed in
+        o["maxPos"] = rng.choice([tot, math.nextafter(tot, 0), math.nextafter(tot, 0), math.nextafter(tot, math.inf)])
+        o["algorithm"] = rng.choice(["simple", "simple", "overlap"])      # round-robin layering shows a changed layer estimate at once
+    elif rng.random() < 0.6:
         o["algorithm"] = rng.choice(["overlap", "overlap", "simple", "none"])
     if rng.random() < 0.5:
         o["density"] = rng.choice([0.85, 0.75, 1, 0.5, 0.3, 0.999])
@@ -196,6 +210,8 @@ def gen_force_opts(rng, labels, span):
         o["stubWidth"] = rng.choice([1, 0, 2, 5])
     if rng.random() < 0.15:
         o["lineSpacing"] = rng.choice([0, 1, 4, 14, 2])       # the engine forwards it to removeOverlap only when the caller sets it
+    if rng.random() < 0.05:
+        o["layerWidth"] = rng.choice([50, 400, 1000, 10])     # not an engine option: the layer width is maxPos - minPos, whatever a shared application dict carries
     return o
 
 
